@@ -121,6 +121,8 @@ DestFn(R) ==
 
 Proj(s) == [i \in DOMAIN s |-> [path |-> s[i].path, code |-> s[i].code, ty |-> s[i].ty]]
 
+RECURSIVE HasMutPT(_)
+HasMutPT(node) == (\E i \in DOMAIN node.pts : node.pts[i] = "mut") \/ (node.k = "pre" /\ node.ty = "mut") \/ (\E i \in DOMAIN node.kids : HasMutPT(node.kids[i].node))
 NoPath(s) == [i \in DOMAIN s |-> [code |-> s[i].code, ty |-> s[i].ty]]
 ReqCodes == {"required", "not_nil"}
 OnlyReq(s) == SelectSeq(s, LAMBDA i : i.code \in ReqCodes)
@@ -209,6 +211,10 @@ RetVerdicts(R, c, lineNo, tag) ==
         [bad |-> ok /\ R.ismap /\ R.issues = <<>> /\ R.first # <<>>, v |-> mk("C10", "first-without-issue", R.first)],
         [bad |-> ok /\ ~R.sanok, v |-> mk("C10", "sanitize", R.issues)],
         [bad |-> ok /\ ~R.inok, v |-> mk("C19", "input-modified", c.input)],
+        \* C19: Validate changes the validated value only through Default, Catch and PostTransform: whatever issues it reports,
+        \* the value afterwards is the reference's (schemas with a value-rewriting transform are left to the pair families)
+        [bad |-> ok /\ c.mode = "validate" /\ ~HasMutPT(c.schema) /\ rd # refd,
+         v |-> mk("C19", "validate-changed-value", [diff |-> Differs(rd, refd, DOMAIN rd \cup DOMAIN refd)])],
         \* C14: every front end is a view of the same record: the result is what the reference says for that record
         [bad |-> ok /\ tag = "fe" /\ (BagOf(NonPT(ri)) # BagOf(ref) \/ (R.issues = <<>> /\ rd # refd)),
          v |-> mk("C14", "view-differs-from-record", [fe |-> c.fe, got |-> ri, want |-> ref, dest |-> Differs(rd, refd, DOMAIN rd \cup DOMAIN refd)])],
